@@ -49,6 +49,8 @@ var genTags = []vocab.LangRef{"en", "fr", "de-AT", "ro", "pt-BR"}
 // NLVShape builds a language list of the given shape: nlv1u nlv1t nlv2 nlv3.
 func (g *Gen) NLVShape(shape string) vocab.NaturalLanguageValues {
 	switch shape {
+	case "nlv-empty":
+		return vocab.NaturalLanguageValues{} // what the constructors pre-allocate
 	case "nlv1u":
 		return vocab.NaturalLanguageValues{{Ref: vocab.NilLangRef, Value: g.Text()}}
 	case "nlv1t":
@@ -177,6 +179,8 @@ func (g *Gen) list(items ...vocab.Item) vocab.ItemCollection {
 // ListShape builds an item list of the given shape: "l:"+item shape, l2, l3.
 func (g *Gen) ListShape(shape string) vocab.ItemCollection {
 	switch shape {
+	case "l-empty":
+		return vocab.ItemCollection{} // set but empty: the normal form says absent
 	case "l2":
 		return g.list(g.IRI(), g.ItemShape("obj:Object"))
 	case "l3":
@@ -195,9 +199,9 @@ func FieldShapes(t reflect.Type, exact bool) []string {
 		for _, is := range ItemShapes(true) {
 			s = append(s, "l:"+is)
 		}
-		return append(s, "l2", "l3")
+		return append(s, "l2", "l3", "l-empty")
 	case t == NlvT:
-		return []string{"nlv1u", "nlv1t", "nlv2", "nlv3"}
+		return []string{"nlv1u", "nlv1t", "nlv2", "nlv3", "nlv-empty"}
 	case t == TimeT:
 		if exact {
 			return []string{"time-s", "time-ns", "time-z"}
@@ -420,8 +424,16 @@ func (g *Gen) Fill(fv reflect.Value, t reflect.Type, depth int) {
 	case t.Kind() == reflect.Interface:
 		fv.Set(reflect.ValueOf(g.Item(depth, true, false)))
 	case t == IcT:
+		if g.R.Intn(12) == 0 {
+			fv.Set(reflect.ValueOf(vocab.ItemCollection{}))
+			return
+		}
 		fv.Set(reflect.ValueOf(g.Items(depth, 1+g.R.Intn(g.MaxList))))
 	case t == NlvT:
+		if g.R.Intn(12) == 0 {
+			fv.Set(reflect.ValueOf(vocab.NaturalLanguageValues{}))
+			return
+		}
 		fv.Set(reflect.ValueOf(g.NLV()))
 	case t == TimeT:
 		fv.Set(reflect.ValueOf(g.Time()))
